@@ -65,6 +65,8 @@ M = {
  'c04-title-overwrite': ('core/connection_impl.py', "elif message.name == 'set_title' and not self.title:", "elif message.name == 'set_title':"),
  'c04-appid-case': ('frontends/tui/controller.py', "            if app_id is not None and name == app_id.lower():", "            if app_id is not None and name == app_id:"),
  'c04-conn-count': ('frontends/tui/controller.py', "line += color(int_color, str(len(connection.messages()))) + ' messages'", "line += color(int_color, str(len(self.all_messages))) + ' messages'"),
+ 'c15-connid': ('backends/gdb_plugin/extract.py', "    return 'gdb_conn:' + hex(int(connection))", "    return 'gdb_conn:' + hex(int(connection) & 0xffffff00)"),
+ 'c15-serverconn': ('backends/gdb_plugin/extract.py', "        new_id_is_actually_an_object = False\n        resource_type = lazy_get_wl_resource_ptr_type()", "        new_id_is_actually_an_object = True\n        resource_type = lazy_get_wl_resource_ptr_type()"),
 }
 name = sys.argv[1]
 f, old, new = M[name]
